@@ -10,11 +10,16 @@
      rd_full  = io.ReadFull(rd, b)               (nil for len b = 0; io.EOF / io.ErrUnexpectedEOF when short)
    Where the code that exists deviates from property C03 the faithful transcription is impl_X, the
    behaviour the property demands is spec_X, and X (fx : bool) selects (fx = true: repaired).
-   Flags: fx1 fixed-width readers use reader.Read      (finding C03-1)
+   Flags (false = the code as it exists today):
+          fx1 fixed-width readers use reader.Read      (finding C03-1)
           fx2 ReadBytesLen / ReadBytes17 use rd.Read   (finding C03-2)
-          fx3 extended Forge short is one byte          (finding C03-3)
+          fx3 extended Forge short is one byte          (finding C03-3); once repaired the short is
+              read with ReadUint16, so fx1 then matters for ReadExtendedForgeShort / ReadBytes17 too
           fx4 ReadProperties has no negative-count test (finding C03-4)
-          fx5 ReadMinimalKey ignores the namespace      (finding C03-5) *)
+          fx5 ReadMinimalKey ignores the namespace      (finding C03-5)
+   Allocation: for every reader that calls make() with a size taken from the input, len_T is the
+   transcription of the reader up to that make() and returns the size; the reader itself is
+   len_T followed by the body read, so an error of len_T is an error before allocation. *)
 From Coq Require Import List NArith ZArith Bool.
 From Verif Require Import Base.Hex.
 From Verif Require Base.VarInt.
